@@ -17,7 +17,7 @@ func EncodeEnvelopWithRemoting(codec vivid.Codec, envelop vivid.Envelop) (data [
 	var writer = messages.NewWriterFromPool()
 	defer messages.ReleaseWriterToPool(writer)
 	if messageDesc.IsOutside() {
-		data, err = codec.Encode(envelop.Message())
+		data, err = messages.EncodeOutside(codec, envelop.Message())
 		if err != nil {
 			return nil, err
 		}
@@ -80,7 +80,7 @@ func DecodeEnvelopWithRemoting(codec vivid.Codec, data []byte) (
 		}
 	} else {
 		// 外部消息反序列化
-		messageInstance, err = codec.Decode(messageData)
+		messageInstance, err = messages.DecodeOutside(codec, messageData)
 		if err != nil {
 			return
 		}
